@@ -554,8 +554,9 @@ class Mutations:
 
         mutate_attr, mutate_param = hp_config.sample()
 
-        if mutate_param.value is None:
-            mutate_param.value = getattr(individual, mutate_attr)
+        # NOTE: Always mutate from the individual's own current value, the hyperparameter
+        # configuration (and the value cached in it) may be shared by several individuals
+        mutate_param.value = getattr(individual, mutate_attr)
 
         # Randomly grow or shrink hyperparameters by specified factors
         new_value = mutate_param.mutate()
